@@ -10,6 +10,7 @@ import (
 	"regexp"
 	"sort"
 	"strings"
+	"sync"
 	"testing"
 	"time"
 
@@ -901,6 +902,40 @@ func TestC18(t *testing.T) {
 			c.Sample(map[string]any{"shape": e.name, "value": fmt.Sprintf("%+v", src), "avps": refcodec.Describe(want), "wire": ev.Hex(wire)})
 		}
 	}
+	if rec.Race() {
+		// race build: several goroutines marshal and unmarshal values of the same struct types,
+		// with the same parsers, at the same moment (every connection's handler does); each value
+		// goes through the whole oracle above, the race detector watches what they share
+		rec.Suite("concurrent-values", rec.N(60, 6000), func(c *ev.Case) {
+			const G = 4
+			var wg sync.WaitGroup
+			start := make(chan struct{})
+			c.Class("concurrent-values/%s", family[c.I%len(family)].name)
+			for g := 0; g < G; g++ {
+				gc := rec.OneCase("concurrent-values", c.I*G+g)
+				e := family[(c.I+g/2)%len(family)] // pairs of goroutines share a struct type
+				wg.Add(1)
+				go func() {
+					defer wg.Done()
+					<-start
+					for k := 0; k < 12 && !gc.Failed(); k++ {
+						runValue(gc, e)
+					}
+				}()
+			}
+			close(start)
+			wg.Wait()
+			c.Event("concurrent_value_groups", 1)
+		})
+		// the first use of a struct type, from several goroutines at once: a struct type made for
+		// this case (reflect.StructOf: a subset of the generated dictionary's scalar AVPs in a
+		// random order, with untagged fields in between) is marshalled and unmarshalled by four
+		// goroutines that start together
+		rec.Suite("concurrent-first-use", rec.N(150, 20000), func(c *ev.Case) {
+			freshTypeRound(c, rec, g)
+		})
+		return
+	}
 	// the same struct type used with messages bound to two dictionaries in which the tagged
 	// names mean different codes and data types (GenXML / GenXML2), in both orders
 	gf2, err := refdict.Parse("gen2", lib.GenXML2)
@@ -1040,6 +1075,96 @@ func goTypeFor(k refcodec.Kind) (reflect.Type, bool) {
 // and used for messages of several applications in turn: the AVP a tag name
 // produces must be the one the dictionary resolves for the message's own
 // application, whatever the type was used with before.
+// freshTypeRound: see suite concurrent-first-use.
+func freshTypeRound(c *ev.Case, rec *ev.Rec, ctx *lib.Ctx) {
+	r := c.R
+	type fld struct {
+		name string
+		typ  reflect.Type
+		code uint32
+	}
+	pool := []fld{{"G-Octets", reflect.TypeOf([]byte(nil)), 9001}, {"G-UTF8", reflect.TypeOf(""), 9002}, {"G-I32", reflect.TypeOf(int32(0)), 9007},
+		{"G-I64", reflect.TypeOf(int64(0)), 9008}, {"G-U32", reflect.TypeOf(uint32(0)), 9009}, {"G-U64", reflect.TypeOf(uint64(0)), 9010}, {"G-F64", reflect.TypeOf(float64(0)), 9012}}
+	r.Shuffle(len(pool), func(i, j int) { pool[i], pool[j] = pool[j], pool[i] })
+	pool = pool[:2+r.IntN(len(pool)-1)]
+	var sf []reflect.StructField
+	var tagged []int
+	for _, f := range pool {
+		for k := r.IntN(6); k > 0; k-- { // untagged fields in between
+			sf = append(sf, reflect.StructField{Name: fmt.Sprintf("X%d", len(sf)), Type: reflect.TypeOf(0)})
+		}
+		tagged = append(tagged, len(sf))
+		sf = append(sf, reflect.StructField{Name: fmt.Sprintf("F%d", len(sf)), Type: f.typ, Tag: reflect.StructTag(fmt.Sprintf(`avp:"%s"`, f.name))})
+	}
+	typ := reflect.StructOf(sf)
+	c.Class("concurrent-first-use/fields=%d", len(pool))
+	const G = 4
+	var wg sync.WaitGroup
+	start := make(chan struct{})
+	for g := 0; g < G; g++ {
+		gc := rec.OneCase(c.Suite, c.I*G+g)
+		wg.Add(1)
+		go func(g int) {
+			defer wg.Done()
+			src := reflect.New(typ)
+			for k, i := range tagged {
+				f := src.Elem().Field(i)
+				switch f.Kind() {
+				case reflect.Slice:
+					f.SetBytes([]byte(fmt.Sprintf("o%d-%d", g, k)))
+				case reflect.String:
+					f.SetString(fmt.Sprintf("s%d-%d", g, k))
+				case reflect.Int32, reflect.Int64:
+					f.SetInt(int64(-1 - g - 10*k))
+				case reflect.Uint32, reflect.Uint64:
+					f.SetUint(uint64(1 + g + 10*k))
+				case reflect.Float64:
+					f.SetFloat(float64(g) + 0.5)
+				}
+			}
+			m := diam.NewMessage(8388000, diam.RequestFlag, 0, 1, 2, ctx.Parser)
+			<-start
+			sig := func(op string) ev.Sig { return ev.Sig{"op": op, "shape": "fresh-struct-type"} }
+			if err := m.Marshal(src.Interface()); err != nil {
+				gc.Fail(sig("marshal-error"), nil, nil, "Marshal of a struct type used for the first time (by %d goroutines at once): %v", G, err)
+				return
+			}
+			if len(m.AVP) != len(pool) {
+				gc.Fail(sig("marshal-avps"), nil, nil, "Marshal of a struct type used for the first time by %d goroutines at once produced %d AVPs for %d tagged fields", G, len(m.AVP), len(pool))
+				return
+			}
+			for k, a := range m.AVP {
+				if a.Code != pool[k].code {
+					gc.Fail(sig("marshal-avps"), nil, nil, "AVP %d has code %d, the field is tagged %s (%d)", k, a.Code, pool[k].name, pool[k].code)
+					return
+				}
+			}
+			wire, err := m.Serialize()
+			if err != nil || int(m.Header.MessageLength) != len(wire) {
+				gc.Fail(sig("marshal-length"), nil, nil, "Serialize err=%v, Header.MessageLength=%d, %d bytes", err, m.Header.MessageLength, len(wire))
+				return
+			}
+			rm, err := diam.ReadMessage(bytes.NewReader(wire), ctx.Parser)
+			if err != nil {
+				gc.Fail(sig("read"), wire, nil, "ReadMessage of the marshalled message: %v", err)
+				return
+			}
+			dst := reflect.New(typ)
+			if err := rm.Unmarshal(dst.Interface()); err != nil {
+				gc.Fail(sig("unmarshal-wire"), wire, nil, "Unmarshal: %v", err)
+				return
+			}
+			if !reflect.DeepEqual(src.Elem().Interface(), dst.Elem().Interface()) {
+				gc.Fail(sig("roundtrip-wire"), wire, nil, "Marshal -> wire -> Unmarshal of a fresh struct type gives %+v for %+v", dst.Elem().Interface(), src.Elem().Interface())
+				return
+			}
+			gc.Event("roundtrips", 1)
+		}(g)
+	}
+	close(start)
+	wg.Wait()
+}
+
 func TestC18Apps(t *testing.T) {
 	rec := ev.Open(t, "C18")
 	defer rec.Close()
